@@ -18,6 +18,7 @@ pub struct SchedState {
     pub draws_seen: Vec<(i64, i64, i64)>,
     pub log_points: bool,
     pub log_internal: bool,
+    pub log_frames: bool,
     pub internal_events: u64,
 }
 
@@ -58,6 +59,7 @@ impl Sched {
     pub fn push_draw(&self, d: Draw) { self.0.lock().unwrap().draws.push_back(d); }
     pub fn internal_events(&self) -> u64 { self.0.lock().unwrap().internal_events }
     pub fn set_log_internal(&self, on: bool) { self.0.lock().unwrap().log_internal = on; }
+    pub fn set_log_frames(&self, on: bool) { self.0.lock().unwrap().log_frames = on; }
     pub fn clear_draws(&self) { self.0.lock().unwrap().draws.clear(); }
 }
 
@@ -78,6 +80,7 @@ impl Controller for Sched {
     fn event(&self, task: Option<String>, kind: &'static str, fields: Vec<(&'static str, String)>) {
         let mut g = self.0.lock().unwrap();
         if !g.log_internal { return; }
+        if (kind == "rx" || kind == "tx") && !g.log_frames { return; }
         g.internal_events += 1;
         let mut m = serde_json::Map::new();
         m.insert("ev".into(), serde_json::json!(kind));
